@@ -58,6 +58,10 @@ def letters():
         # paging through aliases of port 0x7FFD (A15 = 0, A1 = 0), then a store to and a load from the paged area
         ('page via 3FFD', (0x01, 0xFD, 0x3F, 0x3E, 0x13, 0xED, 0x79, 0x32, 0x02, 0xC0, 0x3A, 0x01, 0xC0)),
         ('page via OUT (FD),A', (0x3E, 0x16, 0xD3, 0xFD, 0x32, 0x03, 0xC0, 0x3A, 0x01, 0xC0)),
+        # paging with block OUT instructions: B is decremented before the port is addressed, so B = 0x80 gives port 0x7FFD
+        # (the byte at 0x9000 is 3: bank 3) and B = 0x00 with C = 0xFD gives port 0xFFFD (no paging)
+        ('page via OUTI', (0x01, 0xFD, 0x80, 0x21, 0x00, 0x90, 0xED, 0xA3, 0x32, 0x04, 0xC0, 0x3A, 0x01, 0xC0)),
+        ('OUTD to FFFD', (0x01, 0xFD, 0x00, 0x21, 0x00, 0x90, 0xED, 0xAB, 0x32, 0x05, 0xC0, 0x3A, 0x01, 0xC0)),
         # AY: select a register number >= 16 (no register), read the data port, write it, select register 3, write, read
         ('AY select 1F', (0x01, 0xFD, 0xFF, 0x3E, 0x1F, 0xED, 0x79, 0xED, 0x78, 0x06, 0xBF, 0x3E, 0x55, 0xED, 0x79, 0x06, 0xFF, 0xED, 0x50)),
         ('AY select 3', (0x01, 0xFD, 0xFF, 0x3E, 0x03, 0xED, 0x79, 0x06, 0xBF, 0x3E, 0x5A, 0xED, 0x79, 0x06, 0xFF, 0xED, 0x58)),
